@@ -21,7 +21,7 @@ import (
 
 // rdir is a real directory under the exported root, with the twin's knowledge of it.
 type rdir struct {
-	rel   string         // path relative to the exported root
+	rel   string // path relative to the exported root
 	abs   string
 	sizes map[string]int // name -> wire size of its stat record (independent encoder)
 	cls   string         // size class for keys: n=0, n=1, n=2, n=3..9, n~50, n~1000s
@@ -176,21 +176,22 @@ func (t *traceW) close() { t.w.Flush(); t.f.Close() }
 // decoder and that the names are those of the directory, each exactly once per listing.  The
 // sizes, counts, offsets and reply kinds go to the trace that TLC validates.
 type lister struct {
-	rep    *Report
-	tw     *traceW
-	cn     *Conn
-	d      *rdir
-	fid    *go9p.Fid
-	caseID int
-	cfg    string
-	order  []string // snapshot order (twin, taken when offset 0 is read)
-	pos    int      // entries delivered since offset 0
-	off    uint64
-	seen   map[string]bool
-	steps  []any
-	nodiff bool // the served order differed from the twin order: no size-level validation
-	dead   bool
-	iu     int
+	rep     *Report
+	tw      *traceW
+	cn      *Conn
+	d       *rdir
+	fid     *go9p.Fid
+	caseID  int
+	cfg     string
+	order   []string // snapshot order (twin, taken when offset 0 is read)
+	pos     int      // entries delivered since offset 0
+	off     uint64
+	seen    map[string]bool
+	steps   []any
+	nodiff  bool // the served order differed from the twin order: no size-level validation
+	dead    bool
+	iu      int
+	snapped bool // a Tread at offset 0 was sent on this fid (the server holds a snapshot)
 }
 
 func (l *lister) key(what string) string { return "c15:" + what + ":" + l.d.cls }
@@ -238,6 +239,35 @@ func (l *lister) mutated() {
 	l.tw.line(map[string]any{"act": "Mutate", "sizes": sizesOf(l.d, order)})
 }
 
+// readAt sends one Tread at an offset the protocol rule does not allow; only the size of the reply
+// (or -1 for an error reply) goes to the trace -- the property (C06) demands survival, and the
+// trace tells TLC what the transcribed window should have answered.
+func (l *lister) readAt(off uint64, count int) {
+	if l.dead {
+		return
+	}
+	l.cn.Tap.Frames()
+	data, err := l.cn.Clnt.Read(l.fid, off, uint32(count))
+	frames := l.cn.Tap.Frames()
+	l.steps = append(l.steps, map[string]any{"s": "ReadAt", "off": off, "count": count})
+	l.rep.Add("treads", 1)
+	r := len(data)
+	if err != nil {
+		r = -1
+	}
+	if len(frames) != 1 {
+		l.rep.Inconc(fmt.Sprintf("%d frames for one off-rule Tread (err %v)", len(frames), err))
+		l.dead = true
+		return
+	}
+	if r > count {
+		l.rep.Violate("c06:dir-offrule:over-count:"+l.d.cls, fmt.Sprintf("directory Tread(off=%d,count=%d) (%s) returned %d bytes", off, count, l.cfg, r), l.replay())
+	}
+	if !l.nodiff {
+		l.tw.line(map[string]any{"act": "ReadAt", "off": off, "count": count, "r": r})
+	}
+}
+
 // read sends one Tread (offset 0 if restart, else the offset the rule allows) and returns the
 // reply size, or -1 for an error reply.
 func (l *lister) read(restart bool, count int) int {
@@ -253,6 +283,7 @@ func (l *lister) read(restart bool, count int) int {
 			return -2
 		}
 		l.order, l.pos, l.off, l.seen = order, 0, 0, map[string]bool{}
+		l.snapped = true
 	}
 	off := l.off
 	l.cn.Tap.Frames()
@@ -517,6 +548,38 @@ func TestC15Tour(t *testing.T) {
 			l.d = &rdir{rel: d.rel, abs: d.abs, sizes: d.sizes, cls: d.cls, gen: map[string]any{"ordered_sizes": want, "tour_path": p.ID}}
 			for _, st := range p.Steps[1:] {
 				act := fmt.Sprint(st[0])
+				if act == "DReadAt" {
+					// a Tread off the offset rule (C06): abstract offset a over the abstract snapshot
+					a, c := int(st[1].(float64)), int(st[2].(float64))
+					var snap []int
+					if l.snapped {
+						snap = abstract
+					}
+					total, boundary := 0, a == 0
+					for _, z := range snap {
+						total += z
+						if total == a {
+							boundary = true
+						}
+					}
+					var off int
+					switch {
+					case a > total:
+						off = total*unit + (a-total-1)*unit + 1 + rng.Intn(unit)
+					case boundary:
+						off = a * unit
+					default:
+						off = a*unit + rng.Intn(unit)
+					}
+					distinct[fmt.Sprint(abstract, dotu, act, a, c, l.snapped)] = true
+					l.readAt(uint64(off), c*unit+rng.Intn(unit))
+					rep.Add("steps", 1)
+					rep.Add("offrule_treads", 1)
+					if l.dead {
+						break
+					}
+					continue
+				}
 				c := int(st[1].(float64))
 				real := c*unit + rng.Intn(unit)
 				distinct[fmt.Sprint(abstract, dotu, act, c, l.pos)] = true
